@@ -154,6 +154,14 @@ func (k *Keeper) WriteAcknowledgementForForwardedPacket(ctx sdk.Context, packet 
 			k.unescrowToken(ctx, coin)
 		}
 	} else {
+		if inFlightPacket.RefundPortId == packet.SourcePort && inFlightPacket.RefundChannelId == packet.SourceChannel {
+			// The packet was forwarded back over the channel it arrived on: the vouchers were minted on receipt
+			// and burned again by the forward, so nothing was ever taken out of the refund escrow account.
+			// The error acknowledgement lets the previous hop refund the sender; minting here would leave
+			// unbacked vouchers in the escrow account.
+			return k.ics4Wrapper.WriteAcknowledgement(ctx, inFlightPacket.ChannelPacket(), ack)
+		}
+
 		// Funds in the escrow account were burned,
 		// so on a timeout or acknowledgement error we need to mint the funds back to the escrow account.
 		if err := k.bankKeeper.MintCoins(ctx, transfertypes.ModuleName, newToken); err != nil {
